@@ -80,6 +80,21 @@ var varKinds = []*Kind{
 		p.Blk(s.Ch[1])
 		p.W("}")
 	}},
+	// plain switch: the clause bodies are statement lists without an enclosing block statement
+	{Name: "SwPlain", Arity: 2, Switch: true, EventFirst: true, Print: func(p *Printer, s *Stmt) {
+		p.W("switch c.I(%d) {", p.ID())
+		p.W("case 0:")
+		p.Blk(s.Ch[0])
+		p.W("default:")
+		p.Blk(s.Ch[1])
+		p.W("}")
+	}},
+	{Name: "TySwPlain", Arity: 1, Switch: true, EventFirst: true, Print: func(p *Printer, s *Stmt) {
+		p.W("switch c.Any(%d).(type) {", p.ID())
+		p.W("case int:")
+		p.Blk(s.Ch[0])
+		p.W("}")
+	}},
 	{Name: "TySwShadow", Arity: 1, Switch: true, Print: func(p *Printer, s *Stmt) {
 		p.W("switch x := any(x + %d).(type) {", p.ID())
 		p.W("case int:")
